@@ -239,6 +239,21 @@ CLAIMED = {
         note="codecs are opaque; the prescan model is C06's.",
         technique="Coq proof (invariant over the filter's state machine, induction over streams) + differential "
                   "correspondence + end-to-end encode/decode run"),
+    "C02": dict(
+        category="proof",
+        text="The 63 regular state methods of HTMLTokenizer are TRANSLATED to Gallina on every run (fail-closed "
+             "translator over a closed statement vocabulary); the 10 irregular methods are hand-modelled and "
+             "hash-pinned. Theorems over the regenerated model: every step of every state makes progress, so the "
+             "tokenizer terminates from every configuration within 4|input|+8 state calls; emitCurrentToken's "
+             "dict/update trick is the standard's first-duplicate-wins rule for every attribute list. The model is "
+             "tied to the code by exact agreement (parse errors included) from ANY of the 68 states; the property "
+             "itself is decided by S_tok, a per-character Gallina transcription of the WHATWG tokenizer run against "
+             "the implementation from the five start states. PARTIAL: the refinement theorem model = S_tok is not "
+             "proved; that equality is tested on every run, not proved.",
+        design_ref="DESIGN.md 3 C02",
+        note="one known finding (CDATA NUL); two defects repaired in /repo.",
+        technique="Coq proof (termination by a rank function over the regenerated model, association-list theorem) "
+                  "+ translation + differential correspondence + specification machine run in extracted OCaml"),
 }
 
 PENDING_REASON = "not yet built in this round (planned: Coq model + theorems per DESIGN.md section 3); no check is registered, so nothing is claimed"
